@@ -217,7 +217,7 @@ func (e *Engine) invoke(fr *Frame, ret ssa.Value, fn *ssa.Function, binds []Valu
 			e.finish(fr, ret, nil, noAdvance)
 			return
 		}
-		if fn.Blocks == nil && fn.Pkg != nil {
+		if fn.Pkg != nil {
 			fn.Pkg.Build()
 		}
 		if fn.Blocks == nil || !e.mayInterp(fn) {
@@ -226,8 +226,12 @@ func (e *Engine) invoke(fr *Frame, ret ssa.Value, fn *ssa.Function, binds []Valu
 		}
 	}
 	// 4. interpret
-	if fn.Blocks == nil && fn.Pkg != nil {
+	// always synchronise on the package's build (sync.Once): another harness running in this process may
+	// be building the same package right now, and a half-built function must never be interpreted
+	if fn.Pkg != nil {
 		fn.Pkg.Build()
+	} else if o := fn.Origin(); o != nil && o.Pkg != nil {
+		o.Pkg.Build()
 	}
 	if fn.Blocks == nil || !(e.mayInterp(fn) || interpFuncs[name]) {
 		why := "no body"
@@ -287,7 +291,7 @@ func (e *Engine) lookupHarnessFunc(name string) *ssa.Function {
 	if e.HPkg != nil {
 		f = e.HPkg.Func(name)
 	}
-	if f != nil && f.Blocks == nil {
+	if f != nil && f.Pkg != nil {
 		f.Pkg.Build()
 	}
 	e.stubFns[name] = f
